@@ -145,9 +145,12 @@ def processLocalAccounted : List Nat := [
   581895781666497,  -- global src/common/version.go IsProposal027 [common.LocalChainConfig] — fork table / chain config fixed at start-up; together with localChainInfo it yields the flags (known finding flags-from-process-chain-height)
   1020331752086191,  -- global src/common/version.go IsSub [common.Genesis] — sub-chain configuration read once from genesis.json at start-up; nil on the main chain
   2735802628458516,  -- global src/common/version.go MainNodeContract [common.LocalChainConfig] — fork table / chain config fixed at start-up; together with localChainInfo it yields the flags (known finding flags-from-process-chain-height)
+  1749754366047902,  -- global src/core/blockchain.go blockChain.GetBalance [middleware.AccountDBManagerInstance] — reached only through nil-accountdb fall-backs (GetLatestStateDB) that the executor never takes: it always passes its AccountDB
+  2344143680704768,  -- chainread src/core/blockchain.go blockChain.GetBlockHash [QueryBlockHeaderByHeight] — main-chain index lookup behind GetHash (ancestors only, see bound)
   3509427703353898,  -- store src/core/blockchain.go blockChain.QueryBlockHeaderByHeight [chain.heightDB.Get [db.Database]] — QueryBlockHeaderByHeight in calcDifficulty second part: header of an ancestor block (chain history, not modelled part)
   1339141148764422,  -- store src/core/blockchain.go blockChain.QueryBlockHeaderByHeight [chain.topBlocks.Get [lru.Cache]] — idem (LRU in front of heightDB)
   840308082172872,  -- store src/core/fork_block.go blockChainFork.getBlock [fork.db.Get [db.Database]] — fork-path lookup of ancestor blocks / groups: same replicated data through the fork store
+  1508782448490363,  -- chainread src/core/fork_block.go syncProcessor.GetBlockHash [GetBlockHeader] — fork-path lookup behind GetHash (fork store, then main chain below the fork point)
   555558504157632,  -- store src/core/fork_group.go groupChainFork.getGroupById [fork.db.Get [db.Database]] — fork-path lookup of ancestor blocks / groups: same replicated data through the fork store
   3790870022054829,  -- global src/core/groupchain.go GroupIterator.MovePre [core.groupChainImpl] — group lookup for the reward: replicated group-chain data (model input RewardCfg.group)
   3931571774650457,  -- global src/core/groupchain.go groupChain.ForkIterator [core.SyncProcessor] — fork-path chain helper (same data, other handle)
@@ -155,6 +158,7 @@ def processLocalAccounted : List Nat := [
   1547127731335756,  -- store src/core/groupchain.go groupChain.getGroupById [chain.groups.Get [db.Database]] — group chain lookup for the reward (RewardCfg.group)
   663652526811403,  -- global src/core/sync_helper.go GroupForkIterator.MovePre [core.SyncProcessor] — fork-path chain helper (same data, other handle)
   2784864557967805,  -- global src/core/sync_helper.go GroupForkIterator.MovePre [core.groupChainImpl] — group lookup for the reward: replicated group-chain data (model input RewardCfg.group)
+  341200470507001,  -- chainread src/core/sync_helper.go syncProcessor.GetBlockHeader [QueryBlockHeaderByHeight] — idem
   804587230785933,  -- ctx src/core/vmexecutor.go VMExecutor.Execute [delete contractAddress] — idem
   571519956649298,  -- ctx src/core/vmexecutor.go VMExecutor.Execute [delete logs] — idem
   311953710960808,  -- ctx src/core/vmexecutor.go VMExecutor.Execute [read contractAddress] — deleted after use
@@ -166,6 +170,7 @@ def processLocalAccounted : List Nat := [
   35461906675605,  -- global src/core/vmexecutor.go VMExecutor.after [common.LocalChainConfig] — fork table / chain config fixed at start-up; together with localChainInfo it yields the flags (known finding flags-from-process-chain-height)
   3188132833106357,  -- global src/core/vmexecutor.go VMExecutor.after [service.RefundManagerImpl] — singleton handle; holds chain helpers only
   3193999342649376,  -- global src/core/vmexecutor.go VMExecutor.after [service.RewardCalculatorImpl] — singleton handle; holds chain helpers only
+  4195555124260919,  -- chainread src/core/vmexecutor.go VMExecutor.calcDifficulty [QueryBlockHeaderByHeight] — header rewardBlocks below the executing height (second part of calcDifficulty, not modelled)
   793470408142866,  -- global src/core/vmexecutor.go VMExecutor.calcDifficulty [common.LocalChainConfig] — fork table / chain config fixed at start-up; together with localChainInfo it yields the flags (known finding flags-from-process-chain-height)
   2168668332877904,  -- global src/core/vmexecutor.go VMExecutor.calcDifficulty [core.blockChainImpl] — context["chain"] (BLOCKHASH) and calcDifficulty second part: chain data below the block = part of the parent history, not modelled
   3083301722862101,  -- ctx src/core/vmexecutor.go VMExecutor.prepare [write refund] — prepare(): context["refund"] reset at the start of every execution (Loop.refunds starts empty)
@@ -180,6 +185,7 @@ def processLocalAccounted : List Nat := [
   558653414380971,  -- ctx src/executor/contract_executor.go contractExecutor.Execute [write contractAddress] — executor output
   2765036081659078,  -- ctx src/executor/contract_executor.go contractExecutor.Execute [write gasUsed] — executor output
   3703183435874273,  -- ctx src/executor/contract_executor.go contractExecutor.Execute [write logs] — executor output of this transaction
+  1667593595840116,  -- chainread src/executor/contract_executor.go getBlockHashFn [GetBlockHash] — the GetHash callback handed to the EVM
   3026413669229130,  -- ctx src/executor/jsonrpc_executor.go jsonrpcExecutor.BeforeExecute [write contractData] — BeforeExecute of the same transaction
   3524014543335158,  -- global src/executor/miner_executor.go minerAddExecutor.Execute [service.MinerManagerImpl] — singleton handle assigned at start-up; its mutable side store is listed as store sites (pkCache)
   2950453199794815,  -- global src/executor/miner_executor.go minerApplyExecutor.Execute [service.MinerManagerImpl] — singleton handle assigned at start-up; its mutable side store is listed as store sites (pkCache)
@@ -203,10 +209,24 @@ def processLocalAccounted : List Nat := [
   4382738886316098,  -- global src/storage/account/accountdb_eth.go AccountDB.GetERC20Binding [account.rpgContractAddress] — cache of the RPG ERC20 binding, a genesis-time constant of the state (AddERC20Binding is only called by genesis); re-read while zero
   1544806820199954,  -- global src/storage/account/accountdb_eth.go AccountDB.loadContractCache [account.rpgContractAddress] — cache of the RPG ERC20 binding, a genesis-time constant of the state (AddERC20Binding is only called by genesis); re-read while zero
   3357059105603057,  -- gwrite src/storage/account/accountdb_eth.go AccountDB.loadContractCache [account.rpgContractAddress] — cache fill from the state (genesis-time constant binding); the only writes to package-level state on the execution path
+  1120316242070643,  -- chainread src/vm/instructions.go opBlockhash [GetHash] — GetHash callback = context["chain"].GetBlockHash: the node own block index; admissible arguments are ancestors only (pinned fact bound), which every replica executing on this parent stores identically
+  2299093385721356,  -- global src/vm/instructions.go opGetStake [service.MinerManagerImpl] — singleton handle assigned at start-up; its mutable side store is listed as store sites (pkCache)
+  1345470300932530,  -- global src/vm/instructions.go opStake [service.MinerManagerImpl] — singleton handle assigned at start-up; its mutable side store is listed as store sites (pkCache)
+  3464153620990312,  -- global src/vm/instructions.go opStakeNum [service.MinerManagerImpl] — singleton handle assigned at start-up; its mutable side store is listed as store sites (pkCache)
+  163677751831524,  -- global src/vm/instructions.go opUnStake [service.MinerManagerImpl] — singleton handle assigned at start-up; its mutable side store is listed as store sites (pkCache)
+  2971169474138726,  -- global src/vm/instructions.go opUnStake [service.RefundManagerImpl] — singleton handle; holds chain helpers only
+  2346697547349197,  -- global src/vm/instructions.go opUnStakeAll [service.MinerManagerImpl] — singleton handle assigned at start-up; its mutable side store is listed as store sites (pkCache)
+  3808932209785630,  -- global src/vm/instructions.go opUnStakeAll [service.RefundManagerImpl] — singleton handle; holds chain helpers only
   2182657831887046  -- global src/vm/interpreter.go NewEVMInterpreter [common.LocalChainConfig] — fork table / chain config fixed at start-up; together with localChainInfo it yields the flags (known finding flags-from-process-chain-height)
 ]
 
-def accounted : List Nat := modelled ++ provedIrrelevant ++ outOfPath ++ flagsModelled ++ flagsHeldFixed ++ flagsInUninterpreted ++ processLocalAccounted
+/-- facts about statement order / bounds the model relies on, pinned verbatim: a re-ordered statement or a changed bound changes the key -/
+def pinnedFacts : List Nat := [
+  2127774949120221,  -- order src/core/vmexecutor.go VMExecutor.Execute [prepare,Sort,continue,Prepare,DEADLINE,break,IncreaseNonce,GetTxExecutor,BeforeExecute,continue,Snapshot,Execute,RevertToSnapshot,deductGasFee,IncreaseNonce,SetNonce,NewReceipt,GetLogs,removeUnusedValidator,removeUnusedValidator1,after,IntermediateRoot] — call order of Execute: the cast deadline is tested (and the loop left) before IncreaseNonce / BeforeExecute / Execute of that transaction touch the ledger — what castBlock models and cast_cutoff_consistent uses; sort before the loop, clean-ups and after() before IntermediateRoot
+  3369878446308394  -- bound src/vm/instructions.go opBlockhash [GetHash iff num64 >= lower && num64 < upper] — BLOCKHASH asks the node chain index only for lower <= n < BlockNumber: strictly below the executing height (Model.blockhashAsksChain, blockhash_reads_only_ancestors)
+]
+
+def accounted : List Nat := modelled ++ provedIrrelevant ++ outOfPath ++ flagsModelled ++ flagsHeldFixed ++ flagsInUninterpreted ++ processLocalAccounted ++ pinnedFacts
 
 theorem sites_accounted_bool : siteKeys.all (fun k => accounted.contains k) = true := by
   decide
@@ -232,8 +252,13 @@ theorem flag_reads_pinned :
 
 /-- every process-local state access found on the execution path is one of the classified ones -/
 theorem process_local_reads_pinned :
-    ((sites.filter (fun s => s.kind == "global" || s.kind == "store" || s.kind == "ctx" || s.kind == "gwrite")).map (·.key)).all
+    ((sites.filter (fun s => s.kind == "global" || s.kind == "store" || s.kind == "ctx" || s.kind == "gwrite" || s.kind == "chainread")).map (·.key)).all
       (fun k => processLocalAccounted.contains k) = true := by
+  decide
+
+/-- the statement-order fact of `VMExecutor.Execute` and the BLOCKHASH window are exactly the pinned ones -/
+theorem order_and_bounds_pinned :
+    ((sites.filter (fun s => s.kind == "order" || s.kind == "bound")).map (·.key)) = pinnedFacts := by
   decide
 
 example : processLocalAccounted ≠ [] := by decide
